@@ -228,6 +228,21 @@ Section WriterKeys.
     intros Hx Hy. unfold key_child. destruct (o_random o); intros H; injection H; intros; apply w_inj; assumption.
   Qed.
 
+  (* since fix 2e3e6bb the traversal sorts the neighbours of atom p by key_child_at g .. p = the weight part, then the order
+     of the bond to p, then tb: with injective weights the bond order (like tb) is never reached *)
+  Lemma key_child_at_cmp g tb seen p x y : In x all -> In y all ->
+    zlist_ltb (key_child_at g w tb o all seen p y) (key_child_at g w tb o all seen p x) =
+    zlist_ltb (key_child w tb o all seen y) (key_child w tb o all seen x).
+  Proof.
+    intros Hx Hy. destruct (Z.eq_dec x y) as [->|Hne]; [rewrite !zlist_ltb_irrefl; reflexivity|].
+    assert ((w y =? w x) = false) as E by (apply Z.eqb_neq; intros He; apply Hne; symmetry; apply w_inj; assumption).
+    unfold key_child_at, key_child. destruct (o_random o); cbn; rewrite E; cbn; rewrite ?andb_false_r; reflexivity.
+  Qed.
+
+  Theorem children_at_is_weight_order g tb seen p l : incl l all ->
+    sort_by (key_child_at g w tb o all seen p) l = sort_by (key_child w tb o all seen) l.
+  Proof. intros Hi. apply sort_by_ext. intros x y Hx Hy. apply key_child_at_cmp; apply Hi; assumption. Qed.
+
   (* min(atoms_set, key=mod_weights_start): neither the tie-break priority nor the iteration order of the set matters *)
   Theorem start_atom_weights_only tb tb' l l' : incl l all -> Permutation l l' ->
     min_by (key_start w tb o all) l = min_by (key_start w tb' o all) l'.
@@ -246,6 +261,15 @@ Section WriterKeys.
     rewrite (sort_by_ext _ (key_child w tb' o all seen) l) by (intros x y Hx Hy; apply key_child_tb; apply Hi; assumption).
     apply sort_by_canonical; [|exact Hp].
     intros x y Hx Hy. apply key_child_inj; apply Hi; assumption.
+  Qed.
+
+  (* the key the traversal really uses: neither the molecule's bond orders, nor the parent, nor tb, nor the set order matter *)
+  Theorem children_at_order_weights_only g g2 tb tb' seen p p2 l l' : incl l all -> Permutation l l' ->
+    sort_by (key_child_at g w tb o all seen p) l = sort_by (key_child_at g2 w tb' o all seen p2) l'.
+  Proof.
+    intros Hi Hp. rewrite (children_at_is_weight_order g tb seen p l Hi).
+    rewrite (children_at_is_weight_order g2 tb' seen p2 l') by (intros x Hx; apply Hi; eapply Permutation_in; [apply Permutation_sym; exact Hp | exact Hx]).
+    apply children_order_weights_only; assumption.
   Qed.
 End WriterKeys.
 
@@ -304,6 +328,19 @@ Section Renumbering.
     apply sort_by_map.
     intros y Hy. unfold key_child. rewrite group_of_ren, w_ren, Hseen by (apply Hi; exact Hy). reflexivity.
   Qed.
+
+  (* the same for the key the traversal uses (any two molecules g, g' and parents p, p': the bond order never decides) *)
+  Theorem children_at_order_equivariant g g' p p' tb tb' seen seen' l l' : incl l all -> Permutation (map s l) l' ->
+    (forall n, In n all -> zget seen' (s n) = zget seen n) ->
+    sort_by (key_child_at g' w' tb' o (map s all) seen' p') l' = map s (sort_by (key_child_at g w tb o all seen p) l).
+  Proof.
+    intros Hi Hp Hseen.
+    rewrite (children_at_is_weight_order w o all w_inj g tb seen p l Hi).
+    rewrite (children_at_is_weight_order w' o (map s all) w'_inj g' tb' seen' p' l').
+    - apply children_order_equivariant; assumption.
+    - intros z Hz. apply (Permutation_in _ (Permutation_sym Hp)) in Hz. apply in_map_iff in Hz. destruct Hz as [a [<- Ha]].
+      apply in_map. apply Hi. exact Ha.
+  Qed.
 End Renumbering.
 
 (* ==================================================================================================== *)
@@ -356,6 +393,10 @@ Proof. intros H. unfold key_start. rewrite (group_of_perm w all all' x H). refle
 Lemma key_child_perm w tb o all all' seen x : Permutation all all' ->
   key_child w tb o all seen x = key_child w tb o all' seen x.
 Proof. intros H. unfold key_child. rewrite (group_of_perm w all all' x H). reflexivity. Qed.
+
+Lemma key_child_at_perm g w tb o all all' seen p x : Permutation all all' ->
+  key_child_at g w tb o all seen p x = key_child_at g w tb o all' seen p x.
+Proof. intros H. unfold key_child_at. rewrite (group_of_perm w all all' x H). reflexivity. Qed.
 
 Lemma sort_by_key_eq {A} (key key' : A -> list Z) l : (forall x, key x = key' x) -> sort_by key l = sort_by key' l.
 Proof. intros H. apply sort_by_ext. intros x y _ _. rewrite !H. reflexivity. Qed.
@@ -476,8 +517,8 @@ Section CanonicalFirstChoices.
   (* the children of any atom n are visited in the image of the original order, given BFS labels that correspond *)
   Theorem canonical_children_structure_only tb tb' o seen seen' n :
     In n (ids g) -> (forall x, In x (ids g) -> zget seen' (s x) = zget seen x) ->
-    sort_by (key_child (lbl l') tb' o (ids g') seen') (nbr_ids g' (s n)) =
-    map s (sort_by (key_child (lbl l) tb o (ids g) seen) (nbr_ids g n)).
+    sort_by (key_child_at g' (lbl l') tb' o (ids g') seen' (s n)) (nbr_ids g' (s n)) =
+    map s (sort_by (key_child_at g (lbl l) tb o (ids g) seen n) (nbr_ids g n)).
   Proof.
     intros Hn Hseen.
     destruct (wf_mol_inv g Hwf) as [H1 [H2 H3]].
@@ -495,10 +536,10 @@ Section CanonicalFirstChoices.
       unfold nbr_ids, nbrs. rewrite Hrow, E'. unfold keys.
       eapply Permutation_trans; [|apply Permutation_map; exact P].
       rewrite !map_map. cbn [fst]. apply Permutation_refl. }
-    rewrite (sort_by_key_eq (key_child (lbl l') tb' o (ids g') seen') (key_child (lbl l') tb' o (map s (ids g)) seen'))
-      by (intros x; apply key_child_perm; apply Permutation_sym; exact ids_perm').
-    apply (children_order_equivariant (lbl l) (lbl l') o (ids g) s w_inj_ids w_ren_ids tb tb' seen seen' (nbr_ids g n) (nbr_ids g' (s n)));
-      assumption.
+    rewrite (sort_by_key_eq (key_child_at g' (lbl l') tb' o (ids g') seen' (s n)) (key_child_at g' (lbl l') tb' o (map s (ids g)) seen' (s n)))
+      by (intros x; apply key_child_at_perm; apply Permutation_sym; exact ids_perm').
+    apply (children_at_order_equivariant (lbl l) (lbl l') o (ids g) s w_inj_ids w_ren_ids g g' n (s n) tb tb' seen seen'
+                                         (nbr_ids g n) (nbr_ids g' (s n))); assumption.
   Qed.
 End CanonicalFirstChoices.
 
@@ -582,9 +623,9 @@ Section GlobalRenaming.
   Section Dfs.
     Variable g : mol.
     Variable all : list Z.
-    Variable key key' : Z -> list Z.
+    Variable key key' : Z -> Z -> list Z.
     Hypothesis Hnb : forall n, incl (nbr_ids g n) all.
-    Hypothesis Hsort : forall l, incl l all -> sort_by key' (map s l) = map s (sort_by key l).
+    Hypothesis Hsort : forall p l, incl l all -> sort_by (key' (s p)) (map s l) = map s (sort_by (key p) l).
 
     Lemma dfs_step_ren st : dfs_step (ren_mol s g) key' (ren_dfs s st) = option_map (ren_dfs s) (dfs_step g key st).
     Proof.
@@ -605,7 +646,7 @@ Section GlobalRenaming.
           assert (incl (filter (fun m => negb (m =? parent)) (nbr_ids g child)) all) as Hi
             by (intros x Hx; apply filter_In in Hx; apply (Hnb child); apply Hx).
           destruct (filter (fun m => negb (m =? parent)) (nbr_ids g child)) as [|f0 fr] eqn:E; [reflexivity|].
-          cbn [map]. change (s f0 :: map s fr) with (map s (f0 :: fr)). rewrite (Hsort _ Hi). reflexivity.
+          cbn [map]. change (s f0 :: map s fr) with (map s (f0 :: fr)). rewrite (Hsort child _ Hi). reflexivity.
         + unfold ren_vis. rewrite map_app. reflexivity.
         + unfold ren_vis. rewrite <- (zapp_renG s edges parent child). reflexivity.
     Qed.
@@ -692,21 +733,23 @@ Section TraverseRen.
     { unfold seen. rewrite Hseen. destruct (o_random o); [reflexivity|].
       rewrite n_atoms_ren. unfold ren_labels at 1. rewrite (zset_renG s s_inj). fold (ren_labels s (zset (ws_seen st) start 0)).
       change [(s start, 1)] with (ren_labels s [(start, 1)]). apply bfs_ren. exact s_inj. }
-    assert (forall l, incl l (ids g) ->
-              sort_by (key_child w' tb' o (map s (ids g)) (ren_labels s seen)) (map s l) = map s (sort_by (key_child w tb o (ids g) seen) l)) as Hsort.
-    { intros l Hl. apply (children_order_equivariant w w' o (ids g) s w_inj w_ren tb tb' seen (ren_labels s seen) l (map s l) Hl (Permutation_refl _)).
+    assert (forall p l, incl l (ids g) ->
+              sort_by (key_child_at (ren_mol s g) w' tb' o (map s (ids g)) (ren_labels s seen) (s p)) (map s l) =
+              map s (sort_by (key_child_at g w tb o (ids g) seen p) l)) as Hsort.
+    { intros p l Hl. apply (children_at_order_equivariant w w' o (ids g) s w_inj w_ren g (ren_mol s g) p (s p) tb tb' seen (ren_labels s seen)
+                                                          l (map s l) Hl (Permutation_refl _)).
       intros n _. apply seen_ren. }
     assert (Z.of_nat (List.length (ws_atoms st')) = Z.of_nat (List.length (ws_atoms st))) as ->.
     { f_equal. rewrite <- (Permutation_length Hp). apply map_length. }
-    rewrite nbr_ids_renG by exact s_inj. rewrite (Hsort _ (nbr_ids_incl g Hwf start)). rewrite Hcyc.
+    rewrite nbr_ids_renG by exact s_inj. rewrite (Hsort start _ (nbr_ids_incl g Hwf start)). rewrite Hcyc.
     unfold dfs_fuel. rewrite n_atoms_ren, n_dbonds_ren.
-    pose proof (dfs_ren s s_inj g (ids g) (key_child w tb o (ids g) seen) (key_child w' tb' o (map s (ids g)) (ren_labels s seen))
+    pose proof (dfs_ren s s_inj g (ids g) (key_child_at g w tb o (ids g) seen) (key_child_at (ren_mol s g) w' tb' o (map s (ids g)) (ren_labels s seen))
                         (nbr_ids_incl g Hwf) Hsort (n_dbonds g + 2 * n_atoms g + 2)
-                        (mkDfs [(start, Z.of_nat (List.length (ws_atoms st)), sort_by (key_child w tb o (ids g) seen) (nbr_ids g start))]
+                        (mkDfs [(start, Z.of_nat (List.length (ws_atoms st)), sort_by (key_child_at g w tb o (ids g) seen start) (nbr_ids g start))]
                                [(start, [])] [] [] [] (ws_cycle st))) as Hd.
     unfold ren_dfs at 1 in Hd. cbn [ds_stack ds_visited ds_disc ds_edges ds_tokens ds_cycle ren_stack ren_vis ren_pairs ren_tokens map fst snd] in Hd.
     rewrite Hd.
-    destruct (iter_opt (n_dbonds g + 2 * n_atoms g + 2) (dfs_step g (key_child w tb o (ids g) seen)) _) as [d|]; reflexivity.
+    destruct (iter_opt (n_dbonds g + 2 * n_atoms g + 2) (dfs_step g (key_child_at g w tb o (ids g) seen)) _) as [d|]; reflexivity.
   Qed.
 End TraverseRen.
 
